@@ -76,6 +76,9 @@ def seeded_table():
                               " (no-failing-input-found)")
         else:
             res = "MISSED" if m.get("check_exit") == 0 else "exit %s" % m.get("check_exit")
+            if m.get("caught_by_other_property"):
+                res = "not caught by %s (outside its statement), caught by %s" % (
+                    m["property"], m["caught_by_other_property"])
         rg = m.get("regression")
         if rg:
             if rg.get("status") == "ran":
